@@ -29,7 +29,7 @@ def setup_body(shape, fr_name, perm):
     c0 = tuple(sum(v[i] for v in f0) / len(f0) for i in range(3))
     diag = R.vsub(K.verts[-1], K.verts[0])
     dirs = dict(edge=e, normal=n0, inplane=R.cross(n0, e), diag=diag, generic=R.affine(e, (F(1, 2), n0), (F(1, 4), R.cross(n0, e))),
-                lattice=R.vadd(e, n0))
+                lattice=R.vadd(e, n0), negnormal=R.vscale(F(-1), n0))
     pts = dict(vertex=f0[0], facecentre=c0, centre=K.centre, edgemid=_mid(f0[0], f0[1]))
     return K, B.rbody(K), dirs, pts
 
@@ -39,7 +39,7 @@ def setup_poly(shape, fr_name, perm):
     e = R.vsub(P.verts[1], P.verts[0])
     diag = R.vsub(P.verts[2], P.verts[0])
     dirs = dict(edge=e, normal=P.n, inplane=R.cross(P.n, e), diag=diag, generic=R.affine(e, (F(1, 3), P.n), (F(1, 2), R.cross(P.n, e))),
-                lattice=R.vadd(e, P.n),
+                lattice=R.vadd(e, P.n), negnormal=R.vscale(F(-1), P.n),
                 skewin=R.affine(e, (F(1, 2), R.cross(P.n, e))))
     pts = dict(vertex=P.verts[0], centre=P.centre, edgemid=_mid(P.verts[0], P.verts[1]), facecentre=P.centre)
     return P, B.rpoly(P), dirs, pts
@@ -160,7 +160,8 @@ def families(tier, seed):
     tmpl2 = [('vertex', 'edge', 'inplane'), ('vertex', 'skewin', 'inplane'), ('centre', 'normal', 'edge'), ('edgemid', 'generic', 'edge'),
              ('centre', 'edge', 'normal')]
     ptmpl = [('vertex', 'normal', 'offset'), ('centre', 'diag', 'offset'), ('vertex', 'edge', 'offset'),
-             ('centre', 'lattice' if tier == 'quick' else 'generic', 'offset'), ('edgemid', 'normal', 'tilt')]
+             ('centre', 'lattice' if tier == 'quick' else 'generic', 'offset'), ('edgemid', 'normal', 'tilt'),
+             ('edgemid', 'negnormal', 'offset')]       # coplanar at t = 0 with the normal opposite to the polygon's / face's own
     for bi, (bkind, shape, fr_name) in enumerate(bodies):
         perm = None if tier == 'quick' else rng.choice([None, rng.randrange(48)])
         tag = '%s-%s@%s%s' % (bkind[6:], shape, fr_name, '' if perm is None else '#%d' % perm)
